@@ -67,6 +67,8 @@ class ScriptEntity(Entity):
             return self._gen_yield(outs)
         if form == "gen_return":      # generator that returns its events immediately
             return self._gen_return(outs)
+        if form == "gen_sleep":       # side effects now, then the process sleeps 1-2 ticks and finishes
+            return self._gen_sleep(outs, 1 + (lab % 2 if isinstance(lab, int) else 0))
         raise ValueError(form)
 
     def _gen_yield(self, outs):
@@ -76,6 +78,15 @@ class ScriptEntity(Entity):
     def _gen_return(self, outs):
         return outs
         yield  # pragma: no cover
+
+    def _gen_sleep(self, outs, ticks):
+        yield 0.0, outs
+        ns = ticks * self.w.step
+        d = ns / 1e9
+        if int(d * 1_000_000_000) != ns:          # pick a float that converts to exactly `ns`
+            d = (ns + 0.5) / 1e9
+        yield d
+        return None
 
 
 class World:
